@@ -148,6 +148,14 @@ class ModRef:
         return f'<module {self.name}>'
 
 
+class OptionalModule(Opaque):
+    """module global that is either an imported module or None (optional dependency)"""
+
+    def __init__(self, name):
+        super().__init__('optional-module ' + name)
+        self.modname = name
+
+
 class LibFn:
     def __init__(self, name, bound=None):
         self.name = name
@@ -385,6 +393,20 @@ class Interp:
                     env[n.targets[0].id] = ast.literal_eval(n.value)
                 except Exception:
                     env[n.targets[0].id] = Opaque('module-const ' + n.targets[0].id)
+            elif isinstance(n, ast.Try):
+                # optional imports (try: import x / except ImportError: x = None): the name is an unknown module global,
+                # so that both outcomes of `x is None` are explored
+                for sub in ast.walk(n):
+                    if isinstance(sub, ast.Import):
+                        for a in sub.names:
+                            env.setdefault(a.asname or a.name.split('.')[0], OptionalModule(a.asname or a.name.split('.')[0]))
+                    elif isinstance(sub, ast.ImportFrom):
+                        for a in sub.names:
+                            env.setdefault(a.asname or a.name, LibFn(f'{sub.module}.{a.name}'))
+                    elif isinstance(sub, ast.Assign):
+                        for t in sub.targets:
+                            if isinstance(t, ast.Name):
+                                env[t.id] = OptionalModule(t.id)
         return env
 
     # ------------------------------------------------ helpers
@@ -791,8 +813,12 @@ class Interp:
             if attr in ('shape', 'size', 'ndim', 'dtype'):
                 return Opaque('arr.' + attr)
             return LibFn('ndarray.' + attr, bound=v)
+        if isinstance(v, OptionalModule):
+            return LibFn(f'{v.modname}.{attr}')
         if isinstance(v, Opaque):
             return Opaque(f'{v.tag}.{attr}', [v])
+        if isinstance(v, tuple) and len(v) == 3 and v[0] == 'repo':
+            return Opaque(f'function-attribute {v[2]}.{attr}')
         if isinstance(v, (str, list, dict, tuple, set)):
             return LibFn(f'{type(v).__name__}.{attr}', bound=v)
         if isinstance(v, ClassRef):
@@ -1033,7 +1059,7 @@ class Interp:
             raise Unsupported('calling a module')
         if isinstance(f, Opaque):
             ctx.event('call', name=f'opaque:{f.tag}', args=args, kwargs=kwargs, line=getattr(node, 'lineno', 0))
-            return Opaque(f'{f.tag}()', [f])
+            return taint(Opaque(f'{f.tag}()', [f]), list(args) + list(kwargs.values()))
         if isinstance(f, tuple) and f and f[0] == 'classattr':
             _, cref, attr = f
             q = f'{cref.mod}.{cref.name}.{attr}'
@@ -1378,7 +1404,7 @@ class Interp:
             o.fields[attr] = v
             self.ctx.event('setattr', obj=o, attr=attr, value=v, line=getattr(node, 'lineno', 0))
             return
-        if isinstance(o, Opaque):
+        if isinstance(o, Opaque) or (isinstance(o, tuple) and len(o) == 3 and o[0] == 'repo'):
             self.ctx.event('setattr-opaque', obj=o, attr=attr, value=v, line=getattr(node, 'lineno', 0))
             return
         raise Unsupported(f'attribute store on {type(o).__name__}')
